@@ -303,7 +303,7 @@ fn miri_leg(thorough: bool, _seed: u64, m: &mut Merged) -> Vec<Value> {
     let mut out = Vec::new();
     for (case, nseeds) in plan {
         let flags = format!(
-            "-Zmiri-deterministic-floats -Zmiri-preemption-rate=0.1 -Zmiri-many-seeds=0..{}",
+            "-Zmiri-deterministic-floats -Zmiri-ignore-leaks -Zmiri-preemption-rate=0.1 -Zmiri-many-seeds=0..{}",
             nseeds
         );
         let r = Command::new("cargo")
@@ -775,9 +775,9 @@ pub fn replay(props: &[&dyn Property], path: &str) -> i32 {
     if case["kind"] == "miri" {
         let dir = format!("{}/miri", std::env::var("MOMSIM_BUILD_ROOT").unwrap_or(format!("{}/sim/build", verif_root())));
         let flags = match case["miri_seed"].as_u64() {
-            Some(sd) => format!("-Zmiri-deterministic-floats -Zmiri-preemption-rate=0.1 -Zmiri-seed={}", sd),
+            Some(sd) => format!("-Zmiri-deterministic-floats -Zmiri-ignore-leaks -Zmiri-preemption-rate=0.1 -Zmiri-seed={}", sd),
             None => format!(
-                "-Zmiri-deterministic-floats -Zmiri-preemption-rate=0.1 -Zmiri-many-seeds=0..{}",
+                "-Zmiri-deterministic-floats -Zmiri-ignore-leaks -Zmiri-preemption-rate=0.1 -Zmiri-many-seeds=0..{}",
                 case["nseeds"].as_u64().unwrap_or(16)
             ),
         };
